@@ -363,7 +363,8 @@ func runC15(r *run) {
 	}
 
 	// ---- the std log bridge
-	msgs := []string{"", "a", "a\n", "a\n\n", "two\n\n\n", "\n", "\n\n", "in\nner", "in\nner\n", " lead", "trail \n", "tab\tx"}
+	msgs := []string{"", "a", "a\n", "a\n\n", "two\n\n\n", "\n", "\n\n", "in\nner", "in\nner\n", " lead", "trail \n", "tab\tx",
+		"\f", "\v\n", "\u00a0", " \u3000 \n", "\u2028", "\t\v\t", "\u0085\n"} // white space other than blank, tab, CR, LF is a message like any other
 	for _, format := range []string{"j", "l", "c"} {
 		for _, L := range []int{7, 8, 2, 3, 4, 5, 6, 9, 11} {
 			for _, bl := range []int{2, 3, 4, 5, 6, 8, 9, 10, 11, 33} {
@@ -454,7 +455,13 @@ func runC15(r *run) {
 					}
 					if format == "j" && len(evs) > 0 && utf8.ValidString(want) {
 						var obj map[string]any
-						if json.Unmarshal(evs[0].payload, &obj) == nil {
+						if err := json.Unmarshal(evs[0].payload, &obj); err != nil {
+							if bl == 8 && strings.Trim(want, "\n\r \t") == "" {
+								// a blank message at the Always severity is delivered as one line feed (the blank Print rule)
+							} else {
+								r.violate(violation{What: "what the bridge emitted for a message is not a record (one JSON object with the message)", Input: desc, Expected: fmt.Sprintf("a record with msg %q", want), Actual: fmt.Sprintf("%q", evs[0].payload)})
+							}
+						} else {
 							if lvName, _ := obj["level"].(string); lvName != slog.Level(bl).String() {
 								r.violate(violation{What: "the bridge did not emit the record at the bridge's own severity", Input: desc, Expected: slog.Level(bl).String(), Actual: lvName})
 							}
